@@ -367,7 +367,9 @@ def parameter_dict(case):
     if case.get("expr_param"):
         # a parameter defined by an expression on a free parameter (not used by the model): must follow r.1, must never
         # leak into the caller's parameters, is never handed to the optimiser
-        out["x"] = [["dbl", {"expr": f"$r.{1 + case.get('rate_label_offset', 0)} * 2 + 1"}]]
+        # (with a long group the referenced label is r.10, of which the label r.1 is a textual prefix)
+        k = (2 if len(case["parameters"]["r"]) - case.get("rate_label_offset", 0) >= 2 else 1) + case.get("rate_label_offset", 0)
+        out["x"] = [["dbl", {"expr": f"$r.{k} * 2 + 1"}]]
     return out
 
 
